@@ -118,9 +118,9 @@ def v3_who_may_bind(ctx):
             ctx.finding('V3', 'AssignmentParser::parse/binding-object', 'add_variable is given %s' % arg[:100], site=t['loc'])
 
 
-def v4_keys(ctx):
+def v4_keys(ctx, rid='V4'):
     """V4 the parser's key and VariableInfo::to_string (the map key) both lower-case every token's text"""
-    ctx.rule('V4', 'binding keys are lower-cased on both sides', floor=3)
+    ctx.rule(rid, 'binding keys are lower-cased on both sides', floor=3)
     b = ctx.facts.one(r'^<syntax::assignment::AssignmentParser as syntax::SyntaxParserTrait>::parse$')
     ctx.fn(b)
     n = 0
@@ -130,9 +130,9 @@ def v4_keys(ctx):
         n += 1
         low = any(x[0] == 'call' and x[1].endswith('::to_lowercase') for x in walk(val))
         if low:
-            ctx.ok('V4', 'parser key part: to_lowercase(token.to_string())', 'shape', site=t['loc'])
+            ctx.ok(rid, 'parser key part: to_lowercase(token.to_string())', 'shape', site=t['loc'])
         else:
-            ctx.finding('V4', 'AssignmentParser::parse/key-not-lowercased', 'a part of the variable key is appended without lower-casing: %s' % render(val)[:100], site=t['loc'])
+            ctx.finding(rid, 'AssignmentParser::parse/key-not-lowercased', 'a part of the variable key is appended without lower-casing: %s' % render(val)[:100], site=t['loc'])
     if n < 2:
         raise AnchorLost('AssignmentParser::parse: expected two push_str into the key, found %d' % n)
     # lookup uses the same key string
@@ -145,15 +145,15 @@ def v4_keys(ctx):
         raise AnchorLost('VariableInfo::to_string closure not found')
     r = render(c[0].local_expr(0), transparent=False)
     if 'to_lowercase' in r:
-        ctx.ok('V4', 'VariableInfo::to_string lower-cases every token', 'shape', site=c[0].loc)
+        ctx.ok(rid, 'VariableInfo::to_string lower-cases every token', 'shape', site=c[0].loc)
     else:
-        ctx.finding('V4', 'VariableInfo::to_string/not-lowercased', 'the map key of a binding is built as %s' % r[:100], site=c[0].loc)
+        ctx.finding(rid, 'VariableInfo::to_string/not-lowercased', 'the map key of a binding is built as %s' % r[:100], site=c[0].loc)
     a = ctx.facts.body('session::Session::add_variable')
     ins = list(a.calls(r'BTreeMap::<.*>::insert$'))
     if len(ins) != 1 or not any(x[0] == 'call' and re.search(r'variable::VariableInfo as alloc::string::ToString>::to_string$', x[1]) for x in walk(a.expr(ins[0][1]['args'][1]))):
-        ctx.finding('V4', 'add_variable/key', 'add_variable does not key the binding by VariableInfo::to_string', site=a.loc)
+        ctx.finding(rid, 'add_variable/key', 'add_variable does not key the binding by VariableInfo::to_string', site=a.loc)
     else:
-        ctx.ok('V4', 'add_variable keys by variable_info.to_string()', 'wiring', site=ins[0][1]['loc'])
+        ctx.ok(rid, 'add_variable keys by variable_info.to_string()', 'wiring', site=ins[0][1]['loc'])
 
 
 def v5_compare(ctx):
